@@ -28,9 +28,14 @@ def _load_table(name):
     return {}
 
 
+KERNELS = ('ansi::',)     # the escape-sequence kernel: its arithmetic is index bookkeeping over Element ranges (value-level, not decided)
+
+
 def p3_sites(F, render):
     out = []
     for p in sorted(render):
+        if p.startswith(KERNELS):
+            continue
         blocks = F.blocks(p)
         ordn = 0
         for i, b in enumerate(blocks):
@@ -192,7 +197,7 @@ def _sigF(F, p, o):
 
 def run(F, tier, res):
     res.assumptions += ['Rust `regex` and Python `re` agree on group structure', 'std / dependency functions do not panic on the values they are given (not analysed)']
-    res.not_decided += ['hangs / termination, allocation size, str char-boundary slicing in general, indexing inside the alignment kernels (align.rs, edits.rs: DP table indices), arithmetic other than subtraction',
+    res.not_decided += ['hangs / termination, allocation size, str char-boundary slicing in general, indexing inside the alignment kernels (align.rs, edits.rs: DP table indices), subtraction / slicing inside the escape-sequence kernel (ansi/mod.rs: offsets within Element ranges produced by its own iterator), arithmetic other than subtraction',
                         'the CSI-sequence + non-ASCII text panic and the multi-byte combined-diff prefix panic named in the property text (char-boundary slicing: runtime values)']
     delta = [p for p in F.fn_bodies if p == 'delta::delta']
     if not delta:
@@ -272,6 +277,8 @@ def run(F, tier, res):
     n5 = ok5 = 0
     samples5 = []
     for p in sorted(render):
+        if p.startswith(KERNELS):
+            continue
         ordn = 0
         for i, c in F.calls(p):
             r = callee_of(c)
